@@ -24,15 +24,15 @@ KEY_REFIDX = "C20:shared-reference-index"
 
 # model programs, mirrored from coq/Cache.v (the mirror only decides which steps are silent in the real process; the event trace of
 # every replay is compared with the model's trace inside Coq, so a wrong mirror shows up as a mismatch)
-EVENT = dict(OExists="exists", OInitTrunc="trunc", OInitDump="dump", OInitReplace="replace", ORead="read", OLookup="lookup", OConvert="convert",
+EVENT = dict(DMake="makedirs", DCheck="isdir", DCreate="makedirs", OExists="exists", OInitTrunc="trunc", OInitDump="dump", OInitReplace="replace", ORead="read", OLookup="lookup", OConvert="convert",
              OModify=None, OTrunc="trunc", ODump="dump", OReplace="replace")
-CODE = dict(exists=1, trunc=2, dump=3, replace=4, read=5, lookup=6, convert=7)
+CODE = dict(exists=1, trunc=2, dump=3, replace=4, read=5, lookup=6, convert=7, isdir=9, makedirs=10)
 def prog_init(atomic): return ["OExists", "OInitReplace"] if atomic else ["OExists", "OInitTrunc", "OInitDump"]
 def prog_write(atomic): return ["OReplace"] if atomic else ["OTrunc", "ODump"]
 def prog_convert_db(atomic, clean): return ["ORead"] + ([] if clean else ["OLookup"]) + ["OConvert", "OModify"] + prog_write(atomic)
 def prog_run(atomic, clean): return prog_init(atomic) + prog_convert_db(atomic, clean)
 def prog_stored(atomic): return ["ORead", "OLookup", "OConvert", "ORead", "OModify"] + prog_write(atomic)
-EXC = dict(JSONDecodeError=1, FileNotFoundError=2, TypeError=3)
+EXC = dict(JSONDecodeError=1, FileNotFoundError=2, TypeError=3, FileExistsError=6)
 
 
 # ------------------------------------------------------------------------------------------------ test annotations
@@ -113,7 +113,7 @@ def drive(procs, sched):
         eff.append(i)
         if p.finished or p.ptr >= len(p.prog): return
         op = p.prog[p.ptr]; ev = EVENT[op]
-        if ev is None or (p.blocked != ev and op in ("OInitTrunc", "OInitDump", "OInitReplace", "OLookup")):
+        if ev is None or (p.blocked != ev and op in ("OInitTrunc", "OInitDump", "OInitReplace", "OLookup", "DCreate")):
             p.ptr += 1; return                                    # silent in the real process
         if p.blocked != ev:
             raise Mismatch("process %d is blocked at '%s' where the model program has %s" % (i, p.blocked, op))
@@ -426,6 +426,76 @@ def witnesses(V):
     return out
 
 
+# ------------------------------------------------------------------------------------------------ the configuration directory
+def dir_variant():
+    """how set_configs_directory creates $HOME/.config/IsoQuant: (model program, d_saw_missing at the start) or None"""
+    root = tempfile.mkdtemp(prefix="iqv_c20d_")
+    try:
+        home = os.path.join(root, "home"); os.makedirs(home)
+        spec = dict(kind="init_dir", cache=os.path.join(root, "none.json"), dir=os.path.join(home, ".config", "IsoQuant"), free=True)
+        p = RProc(0, spec, [], home, root); ev = []
+        try:
+            while not p.finished:
+                m = p.wait_msg()
+                if "at" in m: ev.append((m["at"], m.get("exist_ok")))
+        finally: p.close()
+        ok = (p.exit or {}).get("exit") == "done"
+        if ok and ev == [("makedirs", True)]: return (["DMake"], False), ev
+        if ok and ev == [("isdir", None), ("makedirs", False)]: return (["DCheck", "DCreate"], False), ev
+        if ok and ev == [("makedirs", False)]: return (["DCreate"], True), ev
+        return None, ev + [str(p.exit)]
+    finally:
+        shutil.rmtree(root, ignore_errors=True)
+
+
+def dir_replay(variant, present, n, sched):
+    prog, saw = variant
+    root = tempfile.mkdtemp(prefix="iqv_c20d_"); procs = []
+    try:
+        home = os.path.join(root, "home"); d = os.path.join(home, ".config", "IsoQuant")
+        os.makedirs(d if present else home)
+        for i in range(n):
+            procs.append(RProc(i, dict(kind="init_dir", cache=os.path.join(root, "none.json"), dir=d), list(prog), home, root))
+        try:
+            eff, trace = drive(procs, sched); err = None
+        except Mismatch as e:
+            eff, trace, err = list(sched), [], str(e)
+        failed = [(p.exit or {}).get("exc") == "FileExistsError" for p in procs]
+        other = [p.exit for p in procs if (p.exit or {}).get("exit") != "done" and (p.exit or {}).get("exc") != "FileExistsError"]
+        return dict(present=present, n=n, sched=list(sched), eff=eff, trace=trace, failed=failed, dir_end=os.path.isdir(d), protocol_error=err or (str(other) if other else None),
+                    exits=[{k: v for k, v in (p.exit or {}).items() if k != "tb"} for p in procs], program=prog)
+    finally:
+        for p in procs: p.close()
+        shutil.rmtree(root, ignore_errors=True)
+
+
+def corr_dir(ctx, quick):
+    variant, ev = dir_variant()
+    ctx.notes.append("creation of ~/.config/IsoQuant: events %s -> model program %s" % (ev, variant))
+    if variant is None:
+        ctx.broken("protocol:config-dir", "set_configs_directory creates the configuration directory in a way that is not modelled: %s" % ev); return
+    prog, saw = variant; L = len(prog)
+    jobs = []
+    for present in (False, True):
+        for s in interleavings([L, L]): jobs.append((present, 2, s))
+        s3 = list(interleavings([L, L, L]))
+        for s in (s3 if len(s3) <= 6 else ctx.rnd.sample(s3, 6 if quick else 40)): jobs.append((present, 3, s))
+    with ThreadPoolExecutor(8) as ex: obs = list(ex.map(lambda j: dir_replay(variant, *j), jobs))
+    cases = []
+    for o in obs:
+        if o["protocol_error"]:
+            ctx.broken("replay:config-dir", "the real process does not follow the model program: %s" % o["protocol_error"], extra=o); continue
+        term = "(%s, %s, %s, %s, %s, %s)" % (cbool(o["present"]), clist(["(dp %s %s)" % (clist(prog), cbool(saw))] * o["n"]), clist(o["eff"], cnat), clist(o["failed"], cbool), cbool(o["dir_end"]),
+                                             clist(o["trace"], lambda t: "(%s, %s)" % (cnat(t[0]), cz(t[1]))))
+        cases.append((term, o))
+    pre = "From IQ Require Import Cache CacheCorr.\nOpen Scope Z_scope.\nDefinition check := dir_check.\nDefinition prop := dir_prop.\n"
+    m, v = ctx.corr("config_dir_replay", pre, cases, nontrivial=lambda o: not o["present"], ctype="dcase")
+    ctx.corr_report("config_dir_replay", m, v, what="schedule replay of the creation of $HOME/.config/IsoQuant by set_configs_directory")
+    ctx.rule("configuration directory: 2 and 3 real processes run set_configs_directory under one HOME with ~/.config/IsoQuant absent / present; os.path.isdir and os.makedirs of that directory are "
+             "synchronisation points released in the order of a schedule (all interleavings of two, a sample of three); Coq compares who failed, the final state and the event sequence with the model "
+             "(makedirs(exist_ok=True) = one idempotent step; check-then-create = two) and requires that nobody fails; non-trivial = the directory did not exist")
+
+
 def replay_key(o):
     """a reader died with JSONDecodeError or the file ended unparseable, and a site of this scenario rewrites the file in place"""
     if not all(o["scn"]["atomic"]) and (any(tuple(s) == (2, 1) for s in o["status"]) or o["file"] == "partial"):
@@ -602,6 +672,113 @@ def corr_predicates(ctx, quick, only_find_converted_db=False):
     finally:
         shutil.rmtree(root, ignore_errors=True)
 
+def corr_read_mapper_predicates(ctx, quick):
+    """find_stored_index / find_stored_bed / find_stored_alignment of src/read_mapper.py on real files with set mtimes (recorded times equal, OLDER and newer than the file's)"""
+    from src import read_mapper as rm
+    import argparse
+    rnd = ctx.rnd
+    root = tempfile.mkdtemp(prefix="iqv_c20m_")
+    try:
+        # 1 = reference / database / reads (mtime 5), 2 = missing input, 3 = index file used for alignments (mtime 9), 4 = annotation (mtime 3), 6 = missing annotation / index,
+        # 11 = stored file (mtime 7), 12 = stored file that is gone, 13 = another stored file (mtime 7)
+        fsl = [(1, 5, ("gtf", 100)), (3, 9, ("gtf", 300)), (4, 3, ("gtf", 400)), (11, 7, ("db", 100, True)), (13, 7, ("db", 300, True))]
+        F = Files(root, fsl)
+        cfg = os.path.join(root, "cfg.json")
+        KM = {"nanopore": 14, "pacbio_ccs": 15, "assembly": 15}
+        T1 = (None, 4, 5, 6); T2 = (None, 6, 7, 8)
+        def opt(x, f=cz): return copt(x, f)
+        # ---- index
+        cases = []
+        for ref in (1, 2):
+            ents = [None] + [(ix, rm_, im, k) for ix in (None, 11, 12) for rm_ in T1 for im in T2 for k in (None, "14", "15")]
+            for e in ents:
+                for dt in ("nanopore", "pacbio_ccs"):
+                    d = {}
+                    if e is not None:
+                        v = {}
+                        if e[0] is not None: v["index_filename"] = F.path[e[0]]
+                        if e[1] is not None: v["reference_mtime"] = float(e[1])
+                        if e[2] is not None: v["index_mtime"] = float(e[2])
+                        if e[3] is not None: v["kmer_size"] = e[3]
+                        d[F.path[ref]] = v
+                    if rnd.random() < .3: d[F.path[3]] = {"index_filename": F.path[13], "reference_mtime": 9.0, "index_mtime": 7.0, "kmer_size": "14"}
+                    json.dump(d, open(cfg, "w"))
+                    try:
+                        r = rm.find_stored_index(argparse.Namespace(reference=F.path[ref], index_config_path=cfg, data_type=dt))
+                    except Exception as ex:
+                        ctx.violation(None, "find_stored_index raises %s on a cache entry it should simply not use" % type(ex).__name__,
+                                      {"files(id,mtime)": [(a, b) for a, b, _ in fsl], "entry(index,reference_mtime,index_mtime,kmer_size)": e, "reference": ref, "data_type": dt, "error": repr(ex)}); continue
+                    ri = None if r is None else F.inv.get(r, -1)
+                    md = [] if e is None else [(ref, e)]
+                    if F.path[3] in d: md.append((3, (13, 9, 7, "14")))
+                    term = "(%s, %s, %d, %d, %s)" % (cfsl(fsl), clist(md, lambda ke: "(%d, mkientry %s %s %s %s)" % (ke[0], opt(ke[1][0]), opt(ke[1][1]), opt(ke[1][2]), opt(None if ke[1][3] is None else int(ke[1][3])))), ref, KM[dt], opt(ri))
+                    cases.append((term, {"files(id,mtime)": [(a, b) for a, b, _ in fsl], "entry(index,reference_mtime,index_mtime,kmer_size)": e, "reference": ref, "data_type": dt, "impl": ri, "fn": "find_stored_index"}))
+        pre = "From IQ Require Import Cache CacheCorr.\nOpen Scope Z_scope.\nDefinition check := fsi_check.\nDefinition prop := fsi_prop.\n"
+        m, v = ctx.corr("find_stored_index", pre, cases, shard=300, nontrivial=lambda o: o["impl"] is not None, ctype="fsi_case"); ctx.corr_report("find_stored_index", m, v)
+        # ---- BED
+        cases = []
+        for db in (1, 2):
+            ents = [None] + [(b, rm_, bm) for b in (None, 11, 12) for rm_ in T1 for bm in T2]
+            for e in ents:
+                d = {}
+                if e is not None:
+                    v = {}
+                    if e[0] is not None: v["bed_filename"] = F.path[e[0]]
+                    if e[1] is not None: v["reference_mtime"] = float(e[1])
+                    if e[2] is not None: v["bed_mtime"] = float(e[2])
+                    d[F.path[db]] = v
+                json.dump(d, open(cfg, "w"))
+                try:
+                    r = rm.find_stored_bed(argparse.Namespace(genedb=F.path[db], bed_config_path=cfg))
+                except Exception as ex:
+                    ctx.violation(None, "find_stored_bed raises %s on a cache entry it should simply not use" % type(ex).__name__,
+                                  {"files(id,mtime)": [(a, b) for a, b, _ in fsl], "entry(bed,reference_mtime,bed_mtime)": e, "genedb": db, "error": repr(ex)}); continue
+                ri = None if r is None else F.inv.get(r, -1)
+                md = [] if e is None else [(db, e)]
+                term = "(%s, %s, %d, %s)" % (cfsl(fsl), clist(md, lambda ke: "(%d, mkbentry %s %s %s)" % (ke[0], opt(ke[1][0]), opt(ke[1][1]), opt(ke[1][2]))), db, opt(ri))
+                cases.append((term, {"files(id,mtime)": [(a, b) for a, b, _ in fsl], "entry(bed,reference_mtime,bed_mtime)": e, "genedb": db, "impl": ri, "fn": "find_stored_bed"}))
+        pre = "From IQ Require Import Cache CacheCorr.\nOpen Scope Z_scope.\nDefinition check := fsb_check.\nDefinition prop := fsb_prop.\n"
+        m, v = ctx.corr("find_stored_bed", pre, cases, shard=300, nontrivial=lambda o: o["impl"] is not None, ctype="fsb_case"); ctx.corr_report("find_stored_bed", m, v)
+        # ---- alignments: key id 20 = the key string of (reads, index, annotation) at hand
+        cases = []
+        combos = [(fq, ix, an) for fq in (1, 2) for ix in (3, 6) for an in (None, 4, 6)]
+        ents = [None] + [(b, im, fm, bm, am) for b in (None, 11, 12) for im in (None, 8, 9, 10) for fm in T1 for bm in T2 for am in (None, "", 2, 3, 4)]
+        for fq, ix, an in combos:
+            sel = ents if not quick else [ents[0]] + rnd.sample(ents[1:], 140) + [e for e in ents[1:] if e[0] == 11 and e[1] == 9 and e[2] == 5 and e[3] == 7]
+            for e in sel:
+                fastq, index = F.path[fq], F.path[ix]; ann = None if an is None else F.path[an]
+                key = "%s_aligned_to_%s%s" % (fastq, index, "_" + ann if ann else "")
+                d = {}
+                if e is not None:
+                    v = {}
+                    if e[0] is not None: v["alignment_fpath"] = F.path[e[0]]
+                    if e[1] is not None: v["index_mtime"] = float(e[1])
+                    if e[2] is not None: v["fastq_mtime"] = float(e[2])
+                    if e[3] is not None: v["bam_mtime"] = float(e[3])
+                    if e[4] is not None: v["ann_mtime"] = e[4] if e[4] == "" else float(e[4])
+                    d[key] = v
+                json.dump(d, open(cfg, "w"))
+                try:
+                    r = rm.find_stored_alignment(fastq, ann, argparse.Namespace(index=index, alignment_config_path=cfg))
+                    ri = None if r is None else F.inv.get(r, -1); impl = "(Ok %s)" % opt(ri)
+                except FileNotFoundError:
+                    ri = "FileNotFoundError"; impl = "(Raises 2)"
+                except Exception as ex:
+                    ctx.violation(None, "find_stored_alignment raises %s on a cache entry it should simply not use" % type(ex).__name__,
+                                  {"files(id,mtime)": [(a, b) for a, b, _ in fsl], "entry(bam,index_mtime,fastq_mtime,bam_mtime,ann_mtime)": e, "reads": fq, "index": ix, "annotation": an, "error": repr(ex)}); continue
+                md = [] if e is None else [(20, e)]
+                term = "(%s, %s, 20, %d, %d, %s, %s)" % (cfsl(fsl), clist(md, lambda ke: "(%d, mkalentry %s %s %s %s %s)" % (ke[0], opt(ke[1][0]), opt(ke[1][1]), opt(ke[1][2]), opt(ke[1][3]), opt(None if ke[1][4] in (None, "") else ke[1][4]))),
+                                                           fq, ix, opt(an), impl)
+                cases.append((term, {"files(id,mtime)": [(a, b) for a, b, _ in fsl], "entry(bam,index_mtime,fastq_mtime,bam_mtime,ann_mtime)": e, "reads": fq, "index": ix, "annotation": an, "impl": ri, "fn": "find_stored_alignment"}))
+        pre = "From IQ Require Import Cache CacheCorr.\nOpen Scope Z_scope.\nDefinition check := fsa_check.\nDefinition prop := fsa_prop.\n"
+        m, v = ctx.corr("find_stored_alignment", pre, cases, shard=300, nontrivial=lambda o: isinstance(o["impl"], int), ctype="fsa_case"); ctx.corr_report("find_stored_alignment", m, v)
+        ctx.rule("read_mapper caches: find_stored_index / find_stored_bed / find_stored_alignment on real files with set mtimes - input present / absent x entry absent or every combination of stored file in "
+                 "{missing field, present, deleted} x each recorded mtime in {missing, older than the file's, equal, newer} x k-mer size in {missing, 14, 15} x data type (index); index / annotation file "
+                 "present / absent, ann_mtime in {missing, '', older, equal, newer} (alignments; a sample of the 1200 entries per combination in the quick tier); non-trivial = a hit")
+    finally:
+        shutil.rmtree(root, ignore_errors=True)
+
+
 def dbpath_shape(o):
     """the failing hit names a database other than the one asked about, with equal mtime: the known weakness of compare_stored_gtf"""
     d = dict(o["dict"]); db = o["db"]
@@ -735,6 +912,8 @@ def run(ctx):
             ctx.broken("protocol", "the cache code follows neither modelled write protocol at %s; events of one run on the cache file: %s" % (bad, {k: seen.get(k, seen["run"]) for k in bad}))
             return
         corr_predicates(ctx, quick)
+        corr_read_mapper_predicates(ctx, quick)
+        corr_dir(ctx, quick)
         corr_replays(ctx, V, pool, quick)
         free_running(ctx, not all(V.values()), quick)
         reference_index_window(ctx)
